@@ -37,6 +37,8 @@ def build(par, family="Node", names=None, attrs=None):
                 nodes.append(F.HSymMixin(hidden))
             else:
                 nodes.append(F.NM(names[i]))
+    elif family == "BARE":
+        nodes = [F.BareNM(i, i % 2) for i in range(k)]  # no 'name' attribute at all, integer labels
     elif family == "LIST":
         nodes = [F.ListNM(names[i], i % 2) for i in range(k)]
     elif family == "TUPLE":
